@@ -19,7 +19,12 @@ class PipeNotifier(object):
         poller.subscribe(self.__pipeR, self.__onNewNotification, POLL_EVENT_TYPE.READ)
 
     def notify(self):
-        os.write(self.__pipeW, b'o')
+        try:
+            os.write(self.__pipeW, b'o')
+        except OSError as e:
+            # A full pipe means a wake-up is already pending.
+            if e.errno not in (socket.errno.EAGAIN, socket.errno.EWOULDBLOCK):
+                raise
 
     def __onNewNotification(self, descr, eventMask):
         try:
